@@ -304,7 +304,12 @@ pub fn run(ctx: &mut Ctx) {
             _ => Sp::new("«", "»", "期限", "印"),
         };
         let depth = 1 + (rank / UnwrapParams::count()) as usize % 3;
-        let d = unwrap_doc(&p, &mut r, depth, true);
+        let mut d = unwrap_doc(&p, &mut r, depth, true);
+        // now and then the file starts with a byte-order mark / NUL (in front of the head line;
+        // in front of a tag on line 1 it makes the tag share its line, which the premise rejects)
+        if (rank / UnwrapParams::count()) % 8 == 3 {
+            d.insert(0, text(if rank % 2 == 0 { "\u{feff}" } else { "\u{0}" }));
+        }
         let rd = render(&d, &sp);
         judge_one(ctx, &rd, &sp, &cfg, STEP, "unwrap-layouts");
     }
